@@ -265,6 +265,10 @@ class SymKeyDict:
         return self._d.values()
 
 
+class NonTerminating(Exception):
+    """the code under contract keeps reading a finite stream without making progress"""
+
+
 class SymStream:
     """io.BytesIO over a SymBytes / bytes of concrete length, concrete position"""
 
@@ -278,8 +282,10 @@ class SymStream:
         if isinstance(n, SymInt):
             n = n.concretize()
         self.reads += 1
-        if self.reads > 100000:
-            raise Unsupported("stream read budget exhausted (non-terminating loop?)")
+        if self.reads > 20 * len(self.data) + 2000:
+            # far more reads than bytes: the caller keeps reading at EOF.  Reported as an observable
+            # outcome (an exception of the call) so that the counter-model is replayed on the real code.
+            raise NonTerminating("more than %d reads on a %d-byte stream" % (self.reads - 1, len(self.data)))
         L = len(self.data)
         if n < 0:
             n = max(L - self.pos, 0)
